@@ -20,6 +20,19 @@ Fixpoint c17_from (i : Z) (l : list c17) : list Z :=
 Definition c17_failures (l : list c17) : list Z := c17_from 0%Z l.
 Definition c17_out (c : c17) := (c17_code c, lp_write (c17_model c), lp_read (c17_tokens c)).
 
+(* the independent reader alone, on the real text: a concrete witness that the exported text denotes another model *)
+Definition c17_reader_differs (c : c17) : bool :=
+  match lp_read (c17_tokens c) with
+  | Some f => negb (lpfile_eqb f (denote (c17_model c)))
+  | None => true
+  end.
+Fixpoint c17_reader_from (i : Z) (l : list c17) : list Z :=
+  match l with
+  | [] => []
+  | c :: cs => if c17_reader_differs c then i :: c17_reader_from (i + 1)%Z cs else c17_reader_from (i + 1)%Z cs
+  end.
+Definition c17_reader_failures (l : list c17) : list Z := c17_reader_from 0%Z l.
+
 (* the premise of the whole-file round-trip theorem on the tied models (not a failure by itself) *)
 Fixpoint c17_unmet_from (i : Z) (l : list c17) : list Z :=
   match l with
